@@ -25,7 +25,7 @@ PLAN = {
     "thorough": {"shards": 16, "shard_timeout": 3600, "case_timeout": 40, "grammars": 16000, "max_case_timeouts": 160},
 }
 THRESHOLDS = {
-    "quick": {"remapped:ge": 300, "remapped:sge": 300, "remapped:dsge": 300, "remapped:stack": 60, "genotypes_with_refined_fields": 300, "dsge_extension_draws": 100, "after_variation": 300, "remapped_with_string_annotations:dsge": 80, "decider_used_elsewhere_between_mappings": 300, "remapped_with_string_annotations:ge": 80},
+    "quick": {"remapped:ge": 300, "remapped:sge": 300, "remapped:dsge": 300, "remapped:stack": 60, "genotypes_with_refined_fields": 300, "dsge_extension_draws": 100, "after_variation": 300, "remapped_with_string_annotations:dsge": 80, "decider_used_elsewhere_between_mappings": 300, "next_experiment_prepared_between_mappings": 200, "remapped_with_string_annotations:ge": 80},
     "thorough": {"remapped:ge": 5000, "remapped:sge": 5000, "remapped:dsge": 5000, "remapped:stack": 800},
 }
 
@@ -55,6 +55,7 @@ def has_refined(desc):
 
 
 def run_case(case, rec):
+    del grammars.CALLER_LISTS[:]
     ctx = stream.open_case(case, rec)
     if ctx is None:
         return
@@ -158,6 +159,26 @@ def _run(ctx, case, rec):
                         pass
                     finally:
                         src.enabled = True
+                if rng.random() < 0.15 and not case["desc"].get("_string_annotations"):
+                    # "at any later time": the script prepares its NEXT experiment - the option lists it once handed to
+                    # VarRange / IntList get one more entry (an option that was already there, so every value stays valid),
+                    # a class gets a weight, and the next experiment extracts a grammar of its own. The first grammar, its
+                    # representation and its genotypes are not touched.
+                    for lst in grammars.CALLER_LISTS:
+                        if lst:
+                            lst.append(lst[0])
+                    try:
+                        from geneticengine.grammar.decorators import weight as declare_weight
+
+                        prods = [c for c in ctx.built.classes if isinstance(c, type) and not getattr(c, "__abstractmethods__", None) and c in ctx.grammar.all_nodes and c not in ctx.grammar.alternatives]
+                        if prods:
+                            declare_weight(rng.choice([2, 5, 10]))(rng.choice(prods))
+                        grammars.extract(ctx.built)
+                        rec.count("next_experiment_prepared_between_mappings")
+                    except core.CaseTimeout:
+                        raise
+                    except BaseException:  # noqa - the next experiment's own fate is not judged here
+                        pass
                 pn, usedn, outsiden, advn = mapping(geno, nth)
                 rec.count(f"remapped:{kind}")
                 rec.count("evaluations")
